@@ -1,5 +1,4 @@
 """C10 - termination conditions mean what they say, alone and in combination."""
-import math, json, itertools
 from harness.props import c10_util as U
 from harness.props.c10_util import (run_impl, oracle, generate, shrink, classify)   # noqa: F401
 from harness.props.c10_coq import coq_preamble, coq_terms, coq_debug                 # noqa: F401
@@ -8,14 +7,14 @@ ID = "C10"
 TITLE = "Termination conditions mean what they say, alone and in combination"
 PROPS_FILE = "Props/Properties_C10.v"
 LEVEL = "proof"
-SIZES = {"quick": 3000, "thorough": 60000}
+SIZES = {"quick": 3000, "thorough": 20000}
 PARALLEL = True
 SHARD = 250
 COQ_TIMEOUT = 900
 EXHAUSTIVE = {"quick": False, "thorough": True}
 RULE = ("a case = (solver view, expression tree over <= 6 primitive conditions); kinds: leaf (one primitive, tie-targeted "
         "tolerance/window), tree (random And/Or/When expression of depth <= 4, some with shared condition objects, empty "
-        "compounds, single compound arguments), sweep (thorough: every tree with <= 7 nodes over 3 leaves x 8 truth assignments); "
+        "compounds, single compound arguments), witness (the minimal inputs of the known findings, every run), sweep (thorough: EVERY constructor expression with <= 5 nodes over 3 shared leaves + empty And/Or, x all 8 truth assignments, plus a strided sample of the 6- and 7-node expressions); "
         "histories of length 0..40 on a coarse dyadic grid with plateaus/ties/+-inf plus generic floats; windows None/0/1../len-1/"
         "len/len+1/30/negative/float; tolerances 0/tiny/huge/negative/exact tie/one ulp either side; non-trivial = the history "
         "or population is non-empty and, for trees, at least one compound node; distinct = distinct case JSON")
